@@ -214,9 +214,49 @@ INFO = {
     "C19-m9": ("C19", "null-PID packets discarded before accumulation: the parser never sees their unit", "a parser installed and null packets carrying a payload"),
     "C20-m9": ("C20", "end-of-stream dump cached in a Demuxer field that Rewind does not reset", ">= 2 PIDs pending at the end and a Rewind in the middle of the end-of-stream drain"),
     "C20-m10": ("C20", "Rewind re-initialises the Demuxer from a literal that omits the skipper", "DemuxerOptPacketSkipper and any Rewind"),
+    # round 8 (all twenty properties; the brief asked for slips confined to one value, one rare type or one caller of a shared helper)
+    "C01-m11": ("C01", "ESCR base top bits masked with 0x3", "ESCR base >= 2^32"),
+    "C01-m12": ("C01", "sequence-counter and P-STD extension flags written in swapped order", "PES extension with exactly one of the two"),
+    "C02-m11": ("C02", "PES start code looked for in the first TS packet only", "a PES whose first packet carries 1 or 2 payload bytes"),
+    "C02-m12": ("C02", "end-of-stream flush keeps only the first data of a dumped unit", "last pending unit of an SI PID with >= 2 sections"),
+    "C03-m11": ("C03", "skipper loop of the packet buffer turned into recursion", "a long run of packets rejected by a PacketSkipper: stack grows with the run (overflow after ~3 million)"),
+    "C03-m12": ("C03", "adaptation field of null packets not parsed while the payload offset still counts it", "PID 0x1fff with adaptation_field_control 11"),
+    "C04-m11": ("C04", "PCR/OPCR written when the pointer is set, not when the flag is", "adaptation field struct with HasPCR/HasOPCR off and the value still present"),
+    "C04-m12": ("C04", "payload_unit_start_indicator initialised from payloadStart for the adaptation-only packet too", "adaptation field leaving no room for the PES header: two unit starts"),
+    "C05-m11": ("C05", "continuity counter OR-ed into the header without & 0x0f", "first WriteData ever on a stream, with an adaptation field leaving no room for the PES header"),
+    "C05-m12": ("C05", "esContexts kept in a slice; removal written append(s[:i], s[i:]...)", "Remove of a stream that is not the last, then writes on a later one"),
+    "C06-m11": ("C06", "'sent twice' flag not cleared when a packet is appended", "two duplicated packets inside one multi-packet unit"),
+    "C06-m12": ("C06", "discontinuity path hands the queue's slice to a pool and keeps appending to it", "a loss whose first surviving packet is not a unit start, with another PID starting a unit in between"),
+    "C07-m12": ("C07", "single-packet fast path of the shared payload-assembly helper aliases the queued packet's payload", "first packet of a multi-packet PAT/PMT section overwritten by another PID's small unit"),
+    "C08-m11": ("C08", "re-buffering threshold for small bufio readers compares with 188 instead of 193", "bufio.Reader with a buffer of 188..192 bytes and auto-detection"),
+    "C08-m12": ("C08", "second sync byte looked for in the order 188, 192, 189, 190, 191", "189..191-byte packets with a 0x47 at offset 192"),
+    "C09-m11": ("C09", "isUnknown: >= at the upper EIT bound", "EIT table_id 0x6f: never delivered, corruption into 0x6f yields nothing instead of an error"),
+    "C09-m12": ("C09", "enhanced AC-3 length helper is passed HasMainID twice", "enhanced AC-3 descriptor with HasMainID != HasASVC"),
+    "C10-m11": ("C10", "slicing-by-4 fast path of updateCRC32 starts from the initial value", "a non-first piece of >= 16 bytes"),
+    "C10-m12": ("C16", "running section checksum moved to a package-level variable (asked for C10: sequential use is unchanged; two Muxers writing tables at the same time corrupt each other's CRC - C16's subject)", "concurrent WriteTables on different Muxers"),
+    "C11-m11": ("C11", "writePTSOrDTS masks its 4-bit prefix with 0x3 (right for PES, wrong for the seamless splice caller)", "seamless splice with splice_type >= 4"),
+    "C11-m12": ("C11", "OPCR block parsed before the PCR block", "adaptation field with PCR and OPCR of different values"),
+    "C12-m11": ("C12", "PTS/DTS presence tested bit by bit", "the forbidden PTS_DTS_flags value '01': 5 bytes eaten as a DTS"),
+    "C12-m12": ("C12", "ES_rate mask 0x1fffff", "ES rate >= 2^21"),
+    "C13-m11": ("C13", "hasCRC32: < at the upper EIT bound", "EIT table_id 0x6f"),
+    "C13-m12": ("C13", "programme-0 filter moved into parsePATSection", "a PAT with a program_number 0 entry: entry missing from the delivered PAT"),
+    "C14-m11": ("C14", "calcDescriptorLength trusts a non-zero Length", "Descriptor.Length non-zero and wrong"),
+    "C14-m12": ("C14", "extended event items length assigned instead of accumulated", "extended event descriptor with >= 2 items"),
+    "C15-m11": ("C15", "tens digit computed as (n*26)>>8", "durations with 69, 79, 89 or 99 hours"),
+    "C15-m12": ("C15", "range check for the time of day added to the helper shared with durations", "EIT durations of 24 hours or more"),
+    "C16-m11": ("C16", "PES.Data returned as a view of the pooled payload when the first packet carries 0..2 payload bytes", "a PES whose start code is cut by the packet boundary, kept while other payloads are parsed"),
+    "C16-m12": ("C16", "payload of transport-error packets taken without copy", "a TEI packet with payload returned by NextPacket and kept across the next read"),
+    "C17-m11": ("C17", "SetPCRPID assigns pmtUpdated = (pid changed), clearing a pending flag", "Add/Remove then SetPCRPID(unchanged PID) between two emissions: version does not move"),
+    "C17-m12": ("C17", "RemoveElementaryStream rewinds the automatic PID counter to the freed PID", "Add(explicit PID below 0x20), Remove, Add(automatic): automatic PID in the reserved range"),
+    "C18-m11": ("C18", "writePTSOrDTS never sets its error result", "seamless splice DTS bytes written straight to a failing writer"),
+    "C18-m12": ("C18", "NextData formats the reader's error with %v", "any reader failure seen through NextData"),
+    "C19-m11": ("C19", "adaptation field private data read without copy", "a kept packet with private data followed by skipped packets"),
+    "C19-m12": ("C19", "IsOneByteStuffing set after the skipper was consulted", "a packet with adaptation_field_length 0 and a predicate (or call log) looking at that field"),
+    "C20-m11": ("C20", "isPSIComplete: > instead of >= (with the programme map kept by Rewind)", "a PAT filling its packet exactly, a PMT after it, Rewind after >= 1 NextData"),
+    "C20-m12": ("C20", "Rewind skipped when nothing was demuxed since the last one, flag cleared by NextData only", "two Rewinds with only NextPacket calls in between"),
 }
 REVERTS = {
-    "R01": "C12", "R02": "C14", "R03": "C14", "R04": "C18", "R05": "C17", "R06": "C04", "R07": "C11", "R08": "C05", "R09": "C06", "R13": "C08",
+    "R01": "C12", "R02": "C14", "R03": "C14", "R04": "C18", "R05": "C17", "R06": "C04", "R07": "C11", "R08": "C05", "R09": "C06", "R13": "C08", "R14": "C04",
     "R10": "C05", "R11": "C03", "R12": "C05",
 }
 
